@@ -40,6 +40,14 @@ def canon_key(f, k):
 
 
 def main():
+    import time as _time
+    _t = [_time.monotonic()]
+    _times = {}
+
+    def lap(name):
+        now = _time.monotonic()
+        _times[name] = round(now - _t[0], 1)
+        _t[0] = now
     run = Run("C18")
     run.rule = ("helpers: exhaustive nested keys (depth/width per tier) over atoms {a,b,1,()} and all slices start/stop/step in -4..4|None on lengths 0..5; "
                 "programs: random straight-line programs of <=6 tensordict ops, eager vs torch.compile; a case is non-trivial if it is a distinct (helper,input) or program")
@@ -58,7 +66,7 @@ def main():
         gen_tables.write_if_changed("PyFuns.lean", gen_tables.gen_pyfuns())
         gen_tables.write_if_changed("DualHelpers.lean", gen_tables.gen_dual_helpers())
     except py2lean.Untranslatable as e:
-        run.proof_broken.append(f"translator:_slice_indices:{e}")
+        run.proof_broken.append(f"translator:{e}")
     # 2. proofs
     run.build_and_audit(["TdVerif.Props.C18"])
     try:
@@ -69,6 +77,7 @@ def main():
     except Exception as e:
         run.notes.append(f"dual-helper listing failed: {e}")
     drv = run.driver()
+    lap("build+audit")
 
     import tensordict.utils as U
     import cxx_build
@@ -112,6 +121,7 @@ def main():
             run.oracle_ok("slice_indices")
     run.sample({"stream": "slice", "case": [0, 0, None, 3], "model": drv.ask(sx("c18.slice_py", 0, 0, None, 3))})
 
+    lap("slices")
     # 3b. keys
     atoms = ["a", "obs", 1, ()]  # a multi-character name: splicing a str character by character must show
     if run.tier == "thorough":
@@ -160,11 +170,37 @@ def main():
                 raise Infra("tensordict/_C*.so is stale w.r.t. tensordict/csrc (rebuild the extension)")
     run.sample({"stream": "key", "case": ksx[len(ksx) // 2], "cpp": m_kc[len(ksx) // 2], "py": m_kp[len(ksx) // 2]})
 
+    lap("keys")
+    # 3b''. call-level unravel_key_list (both overloads) / unravel_keys, and the key specification
+    import c18_keys
+    c18_keys.key_calls(run, C, keys)
+
+    lap("key_calls")
+    # 3b'. the dual pair infer_size_impl / _infer_size_impl
+    import c18_infer
+    c18_infer.infer_size(run)
+    c18_infer.neg_dim(run)
+
+    lap("infer_size+neg_dim")
+    # 3b3. _check_keys on both branches
+    import c18_checkkeys
+    c18_checkkeys.check_keys(run)
+    c18_checkkeys.seq_keys(run)
+
+    lap("check_keys+seq_keys")
+    # 3b4. _parse_to: native parser vs its Python twin
+    import c18_parseto
+    c18_parseto.parse_to(run)
+
+    lap("parse_to")
     # 3c. batch-size spellings and key-aligned value lists (both branches, direct oracle)
     import c18_programs
     c18_programs.helper_duals(run)
+    lap("helper_duals")
     # 4. programs: eager vs compiled
     c18_programs.programs(run)
+    lap("programs")
+    run.notes.append(f"wall seconds per section: {_times}")
     if run.tier == "thorough":
         run.leanchecker(["TdVerif.Props.C18"])
     run.finish("proof")
